@@ -27,6 +27,11 @@ pub use work_bucket::WorkBucketStage;
 mod worker;
 mod worker_goals;
 mod worker_monitor;
+/// Verification accessor: the crate-private goal types for `crate::verif::sched`.
+#[cfg(feature = "mmtk_verif")]
+pub(crate) mod verif_goals {
+    pub(crate) use super::worker_goals::{WorkerGoal, WorkerGoals};
+}
 pub(crate) use worker::current_worker_ordinal;
 pub use worker::GCWorker;
 #[cfg(feature = "mmtk_verif")]
